@@ -3,7 +3,7 @@ from .base import *
 ID = 'C19'
 THEOREMS = ['C19_activation_keeps_angle', 'C19_relu', 'C19_magnitudes', 'C19_negative_charge', 'C19_otf_phase', 'C19_magnify_intensity', 'C19_tanh_bound', 'C19_range_hyps_inhabited']
 OWNED = {'TRefract', 'TMagnify', 'TInvField', 'TEField', 'TWireB', 'TArea', 'TActivate', 'TPropagate', 'TDisperse'}
-RULE = ('metamorphic pairs: refraction with |sin t_in| <= n (Snell), magnification by m vs 1/m^2, inverse-power fields under r -> s r with s in [1e-3,1e3] and powers 1..3, flipped charge, wire field under r -> s r, '
+RULE = ('metamorphic pairs: refraction with |sin t_in| <= n (Snell), magnification by m vs 1/m^2, inverse-power fields under r -> s r with s in [1e-3,1e3] and real powers in (0, 3.5] (integers and non-integers), flipped charge, wire field under r -> s r, '
         'quadrilaterals with corners in all quadrants and blade histories under a common translation / rotation and against the shoelace area, activations on all quadrants, propagation / dispersion magnitudes. '
         'non-trivial = helper result differs from its operands')
 TRUSTED = TRUSTED_COMMON
@@ -26,7 +26,7 @@ def generate(rng, tier):
         mg = P.add('GScalar', P.f(m))
         preds.append(('magnify_ref', [g, mg, P.add('TMagnify', g, mg)]))
         # inverse field scaling
-        q = r.logu(1e-3, 1e3); d = r.logu(1e-2, 1e2); s = r.logu(1e-3, 1e3); pw = r.choice([1.0, 2.0, 3.0])
+        q = r.logu(1e-3, 1e3); d = r.logu(1e-2, 1e2); s = r.logu(1e-3, 1e3); pw = r.choice([1.0, 2.0, 3.0, 0.5, 1.5, 2.5, 0.25, r.uniform(0.1, 3.5)])   # the property says q/r^n for real n: non-integer powers included
         a = canon_angle(P, r, False)
         ch = P.add('GNewBlade', P.f(q), P.u(r.choice([0, 4, 8, 1000])), P.f(0.0), P.f(1.0)); chn = P.add('GNewBlade', P.f(q), P.u(r.choice([2, 6, 10, 1002])), P.f(0.0), P.f(1.0))
         kc = P.add('GScalar', P.f(r.logu(1e-3, 1e3))); pwr = P.add('GScalar', P.f(pw))
